@@ -12,3 +12,38 @@ def run(ck):
     extra = getattr(tables, 'D_EXTRA', {}).get('C06')
     if extra:
         extra(ck, w)
+    l1_radix(ck, w)
+
+
+DIGITS = ('to_u64_digits', 'to_u32_digits', 'iter_u64_digits', 'iter_u32_digits')
+
+
+def l1_radix(ck, w):
+    """a fold that rebuilds an integer from the digits of a big integer must weigh each digit by the radix"""
+    from ..core import walk, peel
+    from ..engines import hirq
+    ck.rule('C06.L1', 'radix recomposition: a `fold` over the 64/32-bit digits of a big integer (to_u64_digits, …) combines the accumulator with a shift or a '
+                      'multiplication (acc << 64 | digit, acc * radix + digit).  Summing the digits (`acc + digit`) yields lo + hi instead of lo + hi*2^64: '
+                      'ForeignEccChip::mul_by_constant then multiplies by the wrong constant for every scalar of 65..128 bits (e.g. the BLS12-381 cofactor in '
+                      'assert_in_bls12_381_subgroup)')
+    n_sites = 0
+    for f in w.all_fns(['circuits', 'zk_stdlib', 'zkir', 'aggregator']):
+        if '::tests' in f['_nid'] or '/tests' in f['file']:
+            continue
+        for n in walk(f['body']):
+            if n.get('k') != 'mcall' or n.get('m') not in ('fold', 'try_fold'):
+                continue
+            chain, e = [], peel(n['recv'])
+            while e.get('k') == 'mcall':
+                chain.append(e['m'])
+                e = peel(e['recv'])
+            if not any(c in DIGITS for c in chain):
+                continue
+            n_sites += 1
+            ops = {x.get('op') for a in n['args'] if peel(a).get('k') == 'closure' for x in walk(peel(a)['body']) if x.get('k') in ('bin', 'assignop')}
+            calls = {m.get('m') for a in n['args'] if peel(a).get('k') == 'closure' for m in hirq.calls(peel(a)['body'])}
+            weighted = bool(ops & {'<<', '*', '<<=', '*='}) or bool(calls & {'shl', 'pow', 'checked_shl', 'wrapping_shl', 'mul'})
+            ck.record('C06.L1', f'{f["_nid"]}|fold@{"/".join(reversed(chain))}', weighted, f'digits are weighted by the radix (operators {sorted(o for o in ops if o)})',
+                      f'{f["_nid"]}: the fold over {list(reversed(chain))} only uses {sorted(o for o in ops if o)}: the digits are summed without their weight, the '
+                      f'rebuilt integer is wrong as soon as there is more than one digit', hirq.fn_loc(f, n))
+    ck.floor('C06.L1', 'digit folds', n_sites, 1)
